@@ -7,13 +7,13 @@
 (* (configuration, script) with the set of results Verdict allows.          *)
 EXTENDS Setup, TLC, Json
 
-CONSTANTS XModes, XVerify, XConnectors, XTimeouts,
+CONSTANTS XModes, XVerify, XConnectors, XTimeouts, XVias,
           XResps, XRcs, XInjs, XHss,
           XFaultHss          \* handshake behaviours offered after a refusal / garbage / wrong-ID reply
 VARIABLES cfg, sc, s
 vars == <<cfg, sc, s>>
 
-XCfgs == [mode : XModes, verify : XVerify, connector : XConnectors, timeout : XTimeouts]
+XCfgs == [mode : XModes, verify : XVerify, connector : XConnectors, timeout : XTimeouts, via : XVias]
 XScripts(c) == {x \in Scripts :
                   /\ ScriptFor(c, x)
                   /\ x.resp \in XResps \cup {"na"} /\ x.inj \in XInjs /\ x.hs \in XHss
